@@ -12,11 +12,68 @@ structure D where
   sid : Nat := 0
   st : St := {}
   prior : List (Nat × FileSt) := []     -- files of earlier instances, with their stream id
+  priorDrops : List (Nat × Nat × Nat) := []   -- (stream id, segment number, track) of earlier instances
+  gated : Bool := false
   cur : Option CurFile := none
 
 def epochNs : Int := 1614834367000000000   -- 2021-03-04 05:06:07 UTC
 
-def allFiles (d : D) : List (Nat × FileSt) := d.prior ++ (crash d.st).map (fun f => (d.sid, f))
+/-- the files the writer model produced, in creation order -/
+def modelFiles (d : D) : List (Nat × FileSt) := d.prior ++ (crash d.st).map (fun f => (d.sid, f))
+
+/-- file name = start time to the microsecond -/
+def nameKey (f : FileSt) : Int := f.startNTP / 1000
+
+/-- what is on DISK: a segment created with the name of an earlier one truncates it (os.Create), so every path
+shows the content of the LAST segment created with that name -/
+def allFiles (d : D) : List (Nat × FileSt) :=
+  let fs := modelFiles d
+  fs.map fun (sid, f) =>
+    match (fs.reverse.find? (fun g => nameKey g.2 == nameKey f)) with
+    | some g => (sid, g.2)
+    | none => (sid, f)
+
+def hasCollision (d : D) : Bool :=
+  let ks := (modelFiles d).map (fun x => nameKey x.2)
+  ks.eraseDups.length != ks.length
+
+def allDrops (d : D) : List (Nat × Nat × Nat) := d.priorDrops ++ d.st.drops.map (fun (n, t) => (d.sid, n, t))
+
+/-- per file of the implementation's description: (track id - 1, first sample is non-sync) for every track -/
+def firstFlags (impl : String) : List (List (Nat × Bool)) :=
+  ((impl.splitOn "#").drop 1).map fun file =>
+    match file.splitOn "[" with
+    | [_, body] =>
+      let body := (body.splitOn "]").headD ""
+      let parts := body.splitOn ";"
+      parts.foldl (fun (acc : List (Nat × Bool)) part =>
+        (part.splitOn "|").foldl (fun acc tr =>
+          match tr.splitOn ":" with
+          | [h, ss] =>
+            match ((h.drop 1).toString.splitOn "@").head?.bind (·.toNat?) with
+            | some tid =>
+              if acc.any (fun x => x.1 == tid - 1) then acc
+              else acc ++ [(tid - 1, ((ss.splitOn ",").headD "").endsWith "n")]
+            | none => acc
+          | _ => acc) acc) []
+    | _ => []
+
+/-- "segments begin with a random-access sample when the stream has video", on the implementation's files -/
+def syncSpec (d : D) (impl : String) : Option String :=
+  let fl := firstFlags impl
+  let fs := modelFiles d
+  let nVideo := (d.cfg.tracks.filter (·.video)).length
+  let bad := (fl.zip fs).filterMap fun (flags, (sid, f)) =>
+    (flags.find? (fun (tid, ns) => ns && isVideo d.cfg tid)).map fun (tid, _) =>
+      if (allDrops d).any (fun x => x == (sid, f.number, tid)) then
+        s!"KNOWN sync-sample-discarded-late segment #{f.number}: the first sample of video track {tid + 1} is not a random-access sample (its pending key frame was discarded as 'received too late': another track is more than 1 s ahead, or the key frame is older than the segment)"
+      else if nVideo ≥ 2 && (match f.trigger with | some t => t != tid | none => false) then
+        s!"KNOWN second-video-track-not-sync segment #{f.number}: the first sample of video track {tid + 1} is not a random-access sample (the segment switch only looks at the track that triggers it)"
+      else s!"FAIL segment #{f.number}: the first sample of video track {tid + 1} is not a random-access sample"
+  -- FAIL first, then KNOWN
+  match bad.find? (·.startsWith "FAIL") with
+  | some m => some m
+  | none => bad.head?
 
 def parseTrackCfg (s : String) : Option TrackCfg :=
   let v := s.startsWith "v"
@@ -31,12 +88,17 @@ def consecutiveRuns : List Nat → Bool
   | [_] => true
   | a :: b :: r => (b == a + 1 || b == 0) && consecutiveRuns (b :: r)
 
-def diskSpec (impl : String) : String :=
+def diskSpec (d : D) (impl : String) : String :=
   if impl == "none" then "ok" else
+  if hasCollision d then
+    "KNOWN segment-name-collision two segments of the recording have the same start time, hence the same file name: os.Create truncated the earlier one (segmentDuration < 1 s and a lagging track make nextSegmentStartingPos return the same pending sample twice)"
+  else
   let ns := numbersOf impl
   if ns.head? != some 0 then "FAIL first segment of the recording is not numbered 0"
   else if !consecutiveRuns ns then "FAIL segment numbers on disk are not consecutive within an instance"
-  else "ok"
+  else match syncSpec d impl with
+    | some m => m
+    | none => "ok"
 
 def errStr : C28.Err → String
   | .moof => "moof" | .eof => "eof" | _ => "other"
@@ -159,28 +221,30 @@ def stepCut (cf : CurFile) (k z : Nat) (impl : String) : DrvOut :=
 
 def step (d : D) (op impl : String) : D × DrvOut :=
   match words op with
-  | ["reset", sd, pd, ts, sid] =>
+  | "reset" :: sd :: pd :: ts :: sid :: rest =>
     match sd.toNat?, pd.toNat?, (ts.splitOn ",").mapM parseTrackCfg, sid.toNat? with
     | some sd, some pd, some ts, some sid =>
       let cfg : Cfg := ⟨ts, sd * 1000000, pd * 1000000⟩
-      ({ cfg := cfg, sid := sid, st := init cfg }, { model := "ok" })
+      ({ cfg := cfg, sid := sid, st := init cfg, gated := rest == ["g"] }, { model := "ok" })
     | _, _, _, _ => (d, { model := "bad-op" })
   | ["w", t, dts, ntp, fl, id] =>
     match t.toNat?, dts.toNat?, ntp.toInt?, id.toNat? with
     | some t, some dts, some ntp, some id =>
       let x : In := ⟨t, dts, epochNs + ntp * 1000000, fl == "n", id⟩
-      let d := { d with st := write d.cfg d.st x }
-      (d, { model := fmtFiles ((allFiles d).map (·.2)), spec := diskSpec impl })
+      let d := { d with st := (if d.gated then gwrite else write) d.cfg d.st x }
+      (d, { model := fmtFiles ((allFiles d).map (·.2)), spec := diskSpec d impl })
     | _, _, _, _ => (d, { model := "bad-op" })
   | ["close"] =>
     let d := { d with st := close d.st }
-    (d, { model := fmtFiles ((allFiles d).map (·.2)), spec := diskSpec impl })
+    (d, { model := fmtFiles ((allFiles d).map (·.2)), spec := diskSpec d impl })
   | ["restart", sid] =>
     match sid.toNat? with
     | some sid =>
       let st := close d.st
-      let d := { d with prior := d.prior ++ st.files.map (fun f => (d.sid, f)), sid := sid, st := init d.cfg }
-      (d, { model := fmtFiles ((allFiles d).map (·.2)), spec := diskSpec impl })
+      let d := { d with prior := d.prior ++ st.files.map (fun f => (d.sid, f)),
+                        priorDrops := d.priorDrops ++ st.drops.map (fun (n, t) => (d.sid, n, t)),
+                        sid := sid, st := init d.cfg }
+      (d, { model := fmtFiles ((allFiles d).map (·.2)), spec := diskSpec d impl })
     | none => (d, { model := "bad-op" })
   | ["concat", i, j] =>
     match i.toNat?, j.toNat? with
@@ -190,7 +254,9 @@ def step (d : D) (op impl : String) : D × DrvOut :=
       | some a, some b =>
         let m := canConcat a.1 a.2.number b.1 b.2.number
         let spec :=
-          if j == i + 1 && a.1 == b.1 && impl != "true" then
+          if hasCollision d then
+            "KNOWN segment-name-collision two segments of the recording have the same file name: the earlier one was truncated"
+          else if j == i + 1 && a.1 == b.1 && impl != "true" then
             "FAIL consecutive segments of one recorder instance are not recognised as continuous"
           else if a.1 != b.1 && impl == "true" then "FAIL segments of different instances are merged"
           else "ok"
